@@ -79,7 +79,7 @@ func (pexR *PEXReactor) GetChannels() []*ChannelDescriptor {
 // Implements Reactor
 func (pexR *PEXReactor) AddPeer(peer *Peer) {
 	// Add the peer to the address book
-	netAddr, _ := NewNetAddressString(peer.ListenAddr)
+	netAddr, err := NewNetAddressString(peer.ListenAddr)
 	if peer.IsOutbound() {
 		if pexR.book.NeedMoreAddrs() {
 			pexR.RequestPEX(peer)
@@ -87,6 +87,11 @@ func (pexR *PEXReactor) AddPeer(peer *Peer) {
 	} else {
 		// For inbound connections, the peer is its own source
 		// (For outbound peers, the address is already in the books)
+		if err != nil {
+			// the peer advertised a listen address that does not parse: nothing to remember
+			log.Warnf("Cannot add peer address %q to the book: %v", peer.ListenAddr, err)
+			return
+		}
 		pexR.book.AddAddress(netAddr, netAddr)
 	}
 }
